@@ -1,8 +1,11 @@
 (* The surface grammar of filters, as a relation between a text and the AST it must be read as.
    It is written from the language description, not from the parser: a filter is an or-list of
    xor-lists of and-lists of simple expressions (binding strength  not > and > xor > or; a run of the
-   same operator is one node), a simple expression is a comparison `field op literal`, a bare boolean
-   field, `not`/`!` applied to a simple expression, or a parenthesised filter; every operator may be
+   same operator is one node), a simple expression is a comparison `lhs op literal` / `lhs in {items}` /
+   `lhs in $list`, a bare boolean (or boolean-array) left-hand side, `not`/`!` applied to a simple
+   expression, or a parenthesised filter, where a left-hand side is a field followed by any number of
+   index accesses `[n]`, `["key"]`, `[*]`; a left-hand side that iterates ([*]) or is a boolean array makes a
+   boolean-array expression (class K = true), which combines only with its like; every operator may be
    written in either of its spellings; spaces, carriage returns and line feeds may stand between any
    two tokens (and must stand between a name or literal and a following *word* operator); literals are
    written in any of the forms of Spec/C06.v.  The depth index counts enclosing parentheses and
@@ -17,12 +20,12 @@ Import ListNotations.
 Open Scope N_scope.
 Local Notation length := List.length (only parsing).
 
-(* a literal's text begins and ends with a visible ASCII character, and does not begin with `=` (true of
+(* a literal's text begins and ends with a visible ASCII character, and does not begin with `=` or `}` (true of
    every literal form below; kept as a side condition of the grammar so that it does not rest on facts
    about the printers of Spec/C06.v - Proofs/GrammarProofs.v discharges it for the common forms) *)
 Definition visible (b : N) : Prop := b < 128 /\ is_ws_ascii b = false.
 Definition tok_start (t : bytes) : Prop :=
-  match t with b :: _ => visible b /\ b <> 61 | [] => False end.
+  match t with b :: _ => visible b /\ b <> 61 /\ b <> 125 | [] => False end.
 Definition tok_end (t : bytes) : Prop :=
   match rev t with b :: _ => visible b | [] => False end.
 
@@ -47,6 +50,54 @@ Inductive lit_text : ty -> bytes -> rhs -> Prop :=
     lit_text TBytes (print_hexpairs u1 u2 b0 l) (RBytes (b0 :: map snd l) FByte)
 | LT_ip t a : addr_text t a -> lit_text TIp t (RIp a).
 
+(* index accesses after a name: type before, text, indexes, type after *)
+Inductive idx_text : ty -> bytes -> list index -> ty -> Prop :=
+| IX_nil t : idx_text t [] [] t
+| IX_arr e ws1 f n ws2 rest idx t :
+    layout_ws ws1 -> layout_ws ws2 -> (0 <= n < 4294967296)%Z -> int_form_ok f n -> idx_text e rest idx t ->
+    idx_text (TArray e) (91 :: ws1 ++ print_int f n ++ ws2 ++ 93 :: rest) (IArr (Z.to_N n) :: idx) t
+| IX_key e ws1 l ws2 rest idx t :
+    layout_ws ws1 -> layout_ws ws2 -> styles_ok l -> utf8_valid (map snd l) = true -> idx_text e rest idx t ->
+    idx_text (TMap e) (91 :: ws1 ++ print_quoted l ++ ws2 ++ 93 :: rest) (IKey (map snd l) :: idx) t
+| IX_each_arr e ws1 ws2 rest idx t :
+    layout_ws ws1 -> layout_ws ws2 -> idx_text e rest idx t ->
+    idx_text (TArray e) (91 :: ws1 ++ 42 :: ws2 ++ 93 :: rest) (IEach :: idx) t
+| IX_each_map e ws1 ws2 rest idx t :
+    layout_ws ws1 -> layout_ws ws2 -> idx_text e rest idx t ->
+    idx_text (TMap e) (91 :: ws1 ++ 42 :: ws2 ++ 93 :: rest) (IEach :: idx) t.
+
+(* the class of a bare left-hand side used as an expression: a plain boolean, or a boolean array *)
+Definition istrue_class (idx : list index) (t : ty) : option bool :=
+  match t with
+  | TBool => Some (Nat.ltb 0 (map_each_count idx))
+  | TArray TBool | TMap TBool => if Nat.ltb 0 (map_each_count idx) then None else Some true
+  | _ => None
+  end.
+Definition kty (K : bool) : ty := if K then TArray TBool else TBool.
+
+(* items of a brace list *)
+Inductive int_item_text : bytes -> range -> Prop :=
+| II_one f v : in_i64 v -> int_form_ok f v -> int_item_text (print_int f v) (v, v)
+| II_range f1 f2 a b : in_i64 a -> in_i64 b -> int_form_ok f1 a -> int_form_ok f2 b -> (a <= b)%Z ->
+    int_item_text (print_int_range f1 f2 a b) (a, b).
+Inductive ip_item_text : bytes -> ip_item -> Prop :=
+| PI_host t a : addr_text t a -> ip_item_text t (cidr_item a (ip_bits a))
+| PI_cidr t a n : addr_text t a -> (0 <= n <= ip_bits a)%Z -> (ip_num a mod 2 ^ (ip_bits a - n) = 0)%Z ->
+    ip_item_text (t ++ 47 :: print_dec n) (cidr_item a n)
+| PI_range t1 t2 a b : addr_text t1 a -> addr_text t2 b -> same_family a b = true -> (ip_num a <= ip_num b)%Z ->
+    ip_item_text (t1 ++ [46; 46] ++ t2) (range_item a b).
+Definition bytes_item_text (t : bytes) (v : bytes * bytes_format) : Prop := lit_text TBytes t (RBytes (fst v) (snd v)).
+
+(* `{` items `}`: white space is optional after `{`, mandatory between items, optional before `}` *)
+Inductive items_tail {A} (item : bytes -> A -> Prop) : bytes -> list A -> Prop :=
+| IT_close ws : layout_ws ws -> items_tail item (ws ++ [125]) []
+| IT_more ws t a rest l : layout_ws ws -> ws <> [] -> item t a -> tok_start t -> items_tail item rest l ->
+    items_tail item (ws ++ t ++ rest) (a :: l).
+Inductive list_text {A} (item : bytes -> A -> Prop) : bytes -> list A -> Prop :=
+| LT_empty ws : layout_ws ws -> list_text item (123 :: ws ++ [125]) []
+| LT_items ws t a rest l : layout_ws ws -> item t a -> tok_start t -> items_tail item rest l ->
+    list_text item (123 :: ws ++ t ++ rest) (a :: l).
+
 (* an operator in one of its two spellings; [sym] = the spelling is made of symbols, not letters *)
 Definition op_spelling (c : cop) (sp : bytes) (sym : bool) : Prop :=
   exists a1 a2, In (a1, a2, c) comparison_aliases /\ ((sp = a1 /\ sym = false) \/ (sp = a2 /\ sym = true)).
@@ -62,7 +113,10 @@ Inductive cmp_text : ty -> bytes -> bool -> bytes -> cmpop -> Prop :=
 | CT_band sp sym lit z : op_spelling OpBand sp sym -> lit_text TInt lit (RInt z) ->
     cmp_text TInt sp sym lit (CBitAnd z)
 | CT_contains lit b f : lit_text TBytes lit (RBytes b f) ->
-    cmp_text TBytes (bs "contains") false lit (CContains b f).
+    cmp_text TBytes (bs "contains") false lit (CContains b f)
+| CT_in_int txt l : list_text int_item_text txt l -> cmp_text TInt (bs "in") false txt (COneOfInt l)
+| CT_in_ip txt l : list_text ip_item_text txt l -> cmp_text TIp (bs "in") false txt (COneOfIp l)
+| CT_in_bytes txt l : list_text bytes_item_text txt l -> cmp_text TBytes (bs "in") false txt (COneOfBytes l).
 
 Definition cv (o : op) : logop := match o with Or => LOr | Xor => LXor | And => LAnd end.
 
@@ -86,30 +140,41 @@ Variables (sch : scheme) (st : settings).
 Definition names_field (name : bytes) (i : nat) (t : ty) : Prop :=
   ident_text name /\ kw_free name /\ scheme_get sch name = Some (IdField i) /\ field_ty sch i = Some t.
 
-Inductive GSimple : N -> bytes -> lexpr -> Prop :=
-| GS_bool d name i : names_field name i TBool -> GSimple d name (EComparison (IField i []) CIsTrue)
-| GS_cmp d name i t ws1 sp sym ws2 lit c :
-    names_field name i t -> layout_ws ws1 -> layout_ws ws2 -> (sym = true \/ ws1 <> []) ->
-    cmp_text t sp sym lit c -> tok_start lit -> tok_end lit ->
-    GSimple d (name ++ ws1 ++ sp ++ ws2 ++ lit) (EComparison (IField i []) c)
-| GS_not d sp ws t a :
-    In sp [bs "not"; bs "!"] -> layout_ws ws -> d < st_max_depth st -> GSimple (d + 1) t a ->
-    GSimple d (sp ++ ws ++ t) (ENot a)
-| GS_paren d ws1 t e ws2 :
-    layout_ws ws1 -> layout_ws ws2 -> d < st_max_depth st -> GLogical (d + 1) t e ->
-    GSimple d (40 :: ws1 ++ t ++ ws2 ++ [41]) (EParen e)
+(* `lhs in $name`: the scheme must have a list for the type *)
+Inductive cmp_text_s : ty -> bytes -> bool -> bytes -> cmpop -> Prop :=
+| CS_plain t sp sym lit c : cmp_text t sp sym lit c -> cmp_text_s t sp sym lit c
+| CS_in_list t name li : cmp3 t = true -> good_list_name name -> list_index sch t = Some li ->
+    cmp_text_s t (bs "in") false (36 :: name) (CInList li name).
+
+(* K: false = plain boolean, true = boolean array *)
+Inductive GSimple : bool -> N -> bytes -> lexpr -> Prop :=
+| GS_istrue K d name i t0 itxt idx t :
+    names_field name i t0 -> idx_text t0 itxt idx t -> istrue_class idx t = Some K ->
+    GSimple K d (name ++ itxt) (EComparison (IField i idx) CIsTrue)
+| GS_cmp K d name i t0 itxt idx t ws1 sp sym ws2 lit c :
+    names_field name i t0 -> idx_text t0 itxt idx t -> K = Nat.ltb 0 (map_each_count idx) ->
+    layout_ws ws1 -> layout_ws ws2 -> (sym = true \/ ws1 <> []) ->
+    cmp_text_s t sp sym lit c -> tok_start lit -> tok_end lit ->
+    GSimple K d (name ++ itxt ++ ws1 ++ sp ++ ws2 ++ lit) (EComparison (IField i idx) c)
+| GS_not K d sp ws t a :
+    In sp [bs "not"; bs "!"] -> layout_ws ws -> d < st_max_depth st -> GSimple K (d + 1) t a ->
+    GSimple K d (sp ++ ws ++ t) (ENot a)
+| GS_paren K d ws1 t e ws2 :
+    layout_ws ws1 -> layout_ws ws2 -> d < st_max_depth st -> GLogical K (d + 1) t e ->
+    GSimple K d (40 :: ws1 ++ t ++ ws2 ++ [41]) (EParen e)
 (* operator, simple expression, ... : the chain that follows the first simple expression *)
-with GTail : N -> @chain lexpr -> bytes -> Prop :=
-| GT_nil d : GTail d [] []
-| GT_cons d o s ta a c tc : sep_text o s -> GSimple d ta a -> GTail d c tc -> GTail d ((o, Atom a) :: c) (s ++ ta ++ tc)
+with GTail : bool -> N -> @chain lexpr -> bytes -> Prop :=
+| GT_nil K d : GTail K d [] []
+| GT_cons K d o s ta a c tc :
+    sep_text o s -> GSimple K d ta a -> GTail K d c tc -> GTail K d ((o, Atom a) :: c) (s ++ ta ++ tc)
 (* [x] : the or-list of xor-lists of and-lists; [rest_or x] its operators and operands in reading order *)
-with GLogical : N -> bytes -> lexpr -> Prop :=
-| GL d (x : @orl lexpr) t0 a0 tc :
-    simple_orl x -> first_or x = Atom a0 -> GSimple d t0 a0 -> GTail d (rest_or x) tc ->
-    GLogical d (t0 ++ tc) (interp (build_or x)).
+with GLogical : bool -> N -> bytes -> lexpr -> Prop :=
+| GL K d (x : @orl lexpr) t0 a0 tc :
+    simple_orl x -> first_or x = Atom a0 -> GSimple K d t0 a0 -> GTail K d (rest_or x) tc ->
+    GLogical K d (t0 ++ tc) (interp (build_or x)).
 
 (* a whole filter: the expression, with any white space around it *)
 Definition GFilter (text : bytes) (e : lexpr) : Prop :=
-  exists ws1 t ws2, text = ws1 ++ t ++ ws2 /\ layout_ws ws1 /\ layout_ws ws2 /\ GLogical 0 t e.
+  exists ws1 t ws2, text = ws1 ++ t ++ ws2 /\ layout_ws ws1 /\ layout_ws ws2 /\ GLogical false 0 t e.
 
 End Grammar.
